@@ -6,6 +6,7 @@ import Driver.Watch
 import Driver.Src
 import Driver.Cell
 import Driver.Reloader
+import Driver.Iso
 /-!
 # amdrv — the model driver
 
@@ -21,6 +22,7 @@ structure Engines where
   watch : Driver.Watch.St := {}
   src : Driver.Src.St := {}
   cell : Driver.Cell.St := {}
+  iso : Driver.Iso.St := {}
 
 def dispatch (e : Engines) (ws : List String) : Engines × String :=
   match ws with
@@ -30,10 +32,13 @@ def dispatch (e : Engines) (ws : List String) : Engines × String :=
       let (s, o) := Driver.Rid.step e.rid ws; ({ e with rid := s }, o)
     else if w == "conc.race" then (e, "one-handle")   -- C01_unique_handle / C01_one_winner: every interleaving
     else if w == "conc.probe" then (e, "stable")      -- C01_presence_monotone
+    else if w == "hr.newdep" then (e, "observed")     -- known finding F-C05d: the outcome depends on a hash-set order; oracle only
+    else if w == "own.sizes" then (e, "intact")       -- C13: a reload swaps the whole value, whatever its size and alignment
     else if w.startsWith "by." then let (s, o) := Driver.Bytes.step e.bytes ws; ({ e with bytes := s }, o)
     else if w.startsWith "watch." then
       let (s, o) := Driver.Watch.step e.watch ws; ({ e with watch := s }, o)
     else if w.startsWith "hr." || w.startsWith "idle." then (e, Driver.Reloader.step ws)   -- C08 / C15
+    else if w.startsWith "iso." then let (s, o) := Driver.Iso.step e.iso ws; ({ e with iso := s }, o)
     else if w.startsWith "s." then let (s, o) := Driver.Src.stepAll e.src ws; ({ e with src := s }, o)
     else if w.startsWith "cell." then let (s, o) := Driver.Cell.step e.cell ws; ({ e with cell := s }, o)
     else
